@@ -142,7 +142,13 @@ class MT:
 
     # ---- per-thread exploration
     def explore_thread(self, st, tid):
-        eng = Engine(self.irm, timeout=self.timeout, max_steps=self.max_steps)
+        # one time budget for the whole obligation (all threads, all passes), not one per thread exploration
+        if getattr(self, 'deadline', None) is None:
+            self.deadline = time.time() + self.timeout
+        left = self.deadline - time.time()
+        if left <= 0:
+            raise EngineError('time budget of the obligation exhausted (%d s)' % self.timeout)
+        eng = Engine(self.irm, timeout=left, max_steps=self.max_steps)
         eng.mt = self
         st.ext['tid'] = tid
         paths = []
